@@ -17,28 +17,28 @@ def lang(**kw):
 
 LEVEL = {}
 PLAN = {
-    "C01": {"steps": [codec()]},
+    "C01": {"steps": [codec(scale={"thorough": 15})]},
     "C02": {"steps": [codec(), lang(),
                       codec(variant="asan", part="heap", tiers=["thorough"]),
                       codec(variant="checkptr", part="heap", tiers=["thorough"])]},
-    "C03": {"steps": [net(), net(variant="race", tiers=["thorough"])]},
-    "C04": {"steps": [net(), net(variant="race", tiers=["thorough"])]},
-    "C06": {"steps": [net(), net(variant="race", tiers=["thorough"])]},
-    "C07": {"steps": [net()]},
-    "C08": {"steps": [codec()]},
-    "C10": {"steps": [codec()]},
-    "C12": {"steps": [codec()]},
-    "C13": {"steps": [codec()]},
+    "C03": {"steps": [net(scale={"thorough": 3}), net(variant="race", tiers=["thorough"])]},
+    "C04": {"steps": [net(scale={"thorough": 5}), net(variant="race", tiers=["thorough"])]},
+    "C06": {"steps": [net(scale={"thorough": 6}), net(variant="race", tiers=["thorough"])]},
+    "C07": {"steps": [net(scale={"thorough": 5})]},
+    "C08": {"steps": [codec(scale={"thorough": 15})]},
+    "C10": {"steps": [codec(scale={"thorough": 15})]},
+    "C12": {"steps": [codec(scale={"thorough": 6})]},
+    "C13": {"steps": [codec(scale={"thorough": 12})]},
     "C05": {"steps": [lang()]},
     "C14": {"steps": [lang()]},
-    "C15": {"steps": [lang()]},
+    "C15": {"steps": [lang(scale={"thorough": 4})]},
     "C16": {"steps": [codec(part="dynamic"), lang()]},
-    "C17": {"steps": [codec()]},
+    "C17": {"steps": [codec(scale={"thorough": 6})]},
     "C09": {"steps": [net(), net(variant="race", tiers=["thorough"], scale={"thorough": 0.05})]},
-    "C11": {"steps": [net(address_space_kb=12 * 1024 * 1024)]},
+    "C11": {"steps": [net(address_space_kb=12 * 1024 * 1024, scale={"thorough": 3})]},
     "C18": {"steps": [net(), net(variant="race")]},
-    "C19": {"steps": [net(), net(variant="race", tiers=["thorough"])]},
-    "C20": {"steps": [net(), net(variant="race", tiers=["thorough"])]},
+    "C19": {"steps": [net(scale={"thorough": 3}), net(variant="race", tiers=["thorough"])]},
+    "C20": {"steps": [net(scale={"thorough": 4}), net(variant="race", tiers=["thorough"])]},
 }
 LEVEL["C09"] = "fault_enumeration"
 for k in PLAN:
